@@ -340,8 +340,8 @@ func TestC14(t *testing.T) {
 	texts := []string{"t", " [{{ n }}] ", "{{ s | upcase }}", "{% assign pv = n | plus: 1 %}{{ pv }}", "{% if n == 1 %}one{% else %}other{% endif %}", "{% for q in a %}{{ q }},{% endfor %}", "{{ shared }}", "\n", "{% assign shared = \"set-by-includer\" %}", "{{ 1 | divided_by: n }}", "20% off %d %s%%", "{% raw %}{% if x %}{% endraw %}",
 		"  "}
 	// whitespace control at the outer edge of a file: the first piece of a file may begin, the last may end, with a hyphenated
-	// tag (facing the file's boundary); an includer has white space next to the include tag. A hyphen that faces an
-	// include tag from the includer's side is not generated: what it does to the included output is not stated (C13 speaks of literal text)
+	// tag (facing the file's boundary); an includer has white space next to the include tag, and sometimes a hyphen
+	// facing it (see include below)
 	firstEdge := []string{"{{- n }}", "{%- if true %}y{% endif %}", "{{- s }} "}
 	lastEdge := []string{"{{ n -}}", "{% if true %}y{% endif -%}", " {{ s -}}"}
 	genText := func(t *rapid.T, tag string, pos ...string) c14Piece {
@@ -371,17 +371,29 @@ func TestC14(t *testing.T) {
 		mids := []string{"d1/other.html", "d1/d2/mid.html"}
 		chain := []string{"a.html", "b.html", "c.html", "d.html"}
 		style := func() int { return rapid.IntRange(0, 5).Draw(t, "style") }
+		// an include tag, sometimes with a hyphenated tag or object of the includer facing it: the included output is
+		// inserted exactly ("inserts exactly the output that rendering that file's content directly would give"), as a value is
+		include := func(ps []c14Piece, target string) []c14Piece {
+			if rapid.IntRange(0, 5).Draw(t, "facing-before") == 0 {
+				ps = append(ps, c14Piece{Text: rapid.SampledFrom([]string{"{% assign z = 1 -%}", "{{ n -}}", "{% if true -%}{% endif -%}"}).Draw(t, "before")})
+			}
+			ps = append(ps, c14Piece{Target: target, Style: style()})
+			if rapid.IntRange(0, 5).Draw(t, "facing-after") == 0 {
+				ps = append(ps, c14Piece{Text: rapid.SampledFrom([]string{"{%- assign z = 1 %}", "{{- n }}", "{%- if true %}{% endif %}"}).Draw(t, "after")})
+			}
+			return ps
+		}
 		mk := func(name string, next string, variant string) []c14Piece {
 			ps := []c14Piece{genText(t, name+variant, "first")}
 			if next != "" && next != "-" && rapid.IntRange(0, 3).Draw(t, "chain") > 0 {
-				ps = append(ps, c14Piece{Target: next, Style: style()})
+				ps = include(ps, next)
 			}
 			if next != "" && !strings.Contains(name, "/") && rapid.IntRange(0, 3).Draw(t, "midinc") == 0 {
-				ps = append(ps, c14Piece{Target: rapid.SampledFrom(mids).Draw(t, "mid"), Style: style()})
+				ps = include(ps, rapid.SampledFrom(mids).Draw(t, "mid"))
 			}
 			// chain files and the mid files include leaves; leaves include nothing: the graph stays acyclic
 			if next != "" && rapid.Bool().Draw(t, "leafinc") {
-				ps = append(ps, c14Piece{Target: rapid.SampledFrom(leaves).Draw(t, "leaf"), Style: style()})
+				ps = include(ps, rapid.SampledFrom(leaves).Draw(t, "leaf"))
 			}
 			// (a file without includes is one piece: it keeps its first piece only when that ends the file too)
 			ps = append(ps, genText(t, name+variant, "last"))
